@@ -120,6 +120,31 @@ pub fn one<S: Settings + serde::Serialize + serde::de::DeserializeOwned + std::f
     rep.hit(name);
 }
 
+/// "the settings stored in a trace's metadata are those the run used": real chains into a Zarr store, first into a fresh one, then a second
+/// run with other settings into the SAME store (the attribute must be rewritten); C14 reads the same attribute for its own runs
+fn zarr_metadata_case(seed: u64, case: u64, rep: &mut Report) {
+    use crate::storage::{drive, gen_cfg, NoProbe};
+    let mut r = Sm::new(seed, "C19-meta", case);
+    let mut run = gen_cfg(&mut r, case);
+    run.num_tune = 3 + r.below(5); run.num_draws = 2 + r.below(5); run.chain = 0; run.fault_period = 0;
+    let store = std::sync::Arc::new(zarrs::storage::store::MemoryStore::new());
+    rep.evaluations += 1;
+    rep.hit("zarr_metadata");
+    let mut first = true;
+    for _ in 0..2 {
+        let d = drive(&run, nuts_rs::ZarrConfig::new(store.clone()).with_chunk_size(4), &mut NoProbe, None);
+        if d.error.is_some() { break; }
+        let attr = zarrs::group::Group::open(store.clone(), "/").ok().and_then(|g| g.attributes().get("sampler_settings").cloned()).unwrap_or(J::Null);
+        if attr != d.settings_json {
+            rep.violation("serde.zarr_metadata", &format!("the sampler_settings attribute of the store is not the settings of the run that {} it (stored seed {}, used seed {})", if first { "created" } else { "was written into it last" }, attr["seed"], d.settings_json["seed"]),
+                json!({"kind": "c19meta", "seed": seed, "case": case}));
+            break;
+        }
+        first = false;
+        run.seed ^= 0x1234_5678; run.num_draws += 1;
+    }
+}
+
 pub fn main(tier: &str, seed: u64, outdir: &str) {
     let mut cases = Cases::new();
     let mut rep = Report::new("C19");
@@ -157,11 +182,18 @@ pub fn main(tier: &str, seed: u64, outdir: &str) {
                    one("FlowMclmcSettings", &s, None, case, &mut cases, &mut rep); }
         }
     }
+    for case in 0..(if tier == "thorough" { 200u64 } else { 6 }) { zarr_metadata_case(seed, case, &mut rep); }
     cases.write(&format!("{outdir}/C19.cases")).unwrap();
     rep.write(&format!("{outdir}/C19.report.json"));
 }
 
 pub fn replay(v: &serde_json::Value) -> bool {
+    if v["kind"] == "c19meta" {
+        let mut rep = Report::new("replay");
+        zarr_metadata_case(v["seed"].as_u64().unwrap_or(0), v["case"].as_u64().unwrap_or(0), &mut rep);
+        println!("replay: {:?}", rep.violations.iter().map(|v| v["what"].as_str().unwrap_or("").to_string()).collect::<Vec<_>>());
+        return !rep.violations.is_empty();
+    }
     // the failing settings value is carried as JSON; re-run the round trip on it
     let name = v["preset"].as_str().unwrap_or("");
     macro_rules! rt { ($t:ty) => {{
